@@ -459,12 +459,92 @@ async fn history(node: &Node, reader: &SqliteStore, seed: u64, case: u64) -> Out
     if had_backwards && had_foreign {
         out.nontrivial = Some(vh_common::hash_of(&format!("{actions_log:?}{plan_log:?}")));
     }
+    // --- observation only: two independent streams on one topic ------------------------------
+    // Each `node.stream(topic)` has its own ack semaphore, so acks through two streams of the same
+    // topic can interleave their read-modify-write of the shared cursor row. That is outside the
+    // statement's quantifier (sequences of ack calls on a stream); recorded, never judged.
+    if case % 4 == 0 {
+        match two_streams_observation(node, reader, topics[0], &publishers[0], &subs[0]).await {
+            Some(true) => out.bump("observed_not_judged:two streams on one topic: accepted ack missing from cursor", 1),
+            Some(false) => out.bump("observed_not_judged:two streams on one topic: cursor complete", 1),
+            None => out.bump("observed_not_judged:two streams on one topic: phase skipped", 1),
+        }
+    }
     drop(publishers);
     if case < 2 {
         out.sample = Some(json!({"case": case, "topics": n_topics, "operations": ops.len(), "sequential_actions": actions_log.iter().take(8).collect::<Vec<_>>(), "concurrent_plan": plan_log.first(),
                                  "final_heights": after.iter().map(|r| r.heights.iter().map(|((a, _), s)| json!([a.to_string()[..8].to_string(), s])).collect::<Vec<_>>()).collect::<Vec<_>>()}));
     }
     out
+}
+
+/// Returns `Some(true)` when an accepted ack is missing from the cursor after acks raced through
+/// two independent streams of the same topic.
+async fn two_streams_observation(
+    node: &Node,
+    reader: &SqliteStore,
+    topic: Topic,
+    publisher: &p2panda::streams::StreamPublisher<String>,
+    sub1: &Arc<StreamSubscription<String>>,
+) -> Option<bool> {
+    // Four more operations through stream 1 (they wait, unacknowledged, in its 16-slot channel).
+    let mut ids = Vec::new();
+    for k in 0..4 {
+        let fut = publisher.publish(format!("extra-{k}")).await.ok()?;
+        ids.push(fut.hash());
+        tokio::time::timeout(WATCHDOG, fut).await.ok()?.ok()?;
+    }
+    // Stream 2 replays what is not acknowledged yet; its operations carry stream 2's ack state.
+    let (_tx2, mut rx2) = node.stream::<String>(topic).await.ok()?;
+    let mut replayed: Vec<ProcessedOperation<String>> = Vec::new();
+    let collect = async {
+        while let Some(ev) = rx2.next().await {
+            match ev {
+                StreamEvent::Processed { operation, .. } => replayed.push(operation),
+                StreamEvent::ReplayEnded | StreamEvent::ReplayFailed { .. } => break,
+                _ => {}
+            }
+        }
+    };
+    tokio::time::timeout(WATCHDOG, collect).await.ok()?;
+    let mine: Vec<ProcessedOperation<String>> = replayed.into_iter().filter(|p| ids.contains(&p.id())).collect();
+    if mine.len() < 2 {
+        return None;
+    }
+    let author = mine[0].author();
+    let log_id = mine[0].processed().header().extensions.log_id();
+    let max_seq = mine.iter().map(|p| p.processed().header().seq_num).max()?;
+    let a = {
+        let sub1 = sub1.clone();
+        let ids: Vec<Hash> = mine.iter().rev().map(|p| p.id()).collect();
+        tokio::spawn(async move {
+            let mut ok = 0;
+            for id in ids {
+                if sub1.ack(id).await.is_ok() {
+                    ok += 1;
+                }
+            }
+            ok
+        })
+    };
+    let b = {
+        let mine = mine.clone();
+        tokio::spawn(async move {
+            let mut ok = 0;
+            for p in mine {
+                if p.ack().await.is_ok() {
+                    ok += 1;
+                }
+            }
+            ok
+        })
+    };
+    let (ra, rb) = (tokio::time::timeout(WATCHDOG, a).await.ok()?.ok()?, tokio::time::timeout(WATCHDOG, b).await.ok()?.ok()?);
+    if ra + rb == 0 {
+        return None;
+    }
+    let row = read_row(reader, topic).await.ok()?;
+    Some(row.heights.get(&(author, log_id)).is_none_or(|h| *h < max_seq))
 }
 
 async fn worker(dir: std::path::PathBuf, seed: u64, w: u64, cases: Vec<u64>, sink: Arc<Mutex<Vec<Outcome>>>, deadline: std::time::Instant) {
